@@ -132,6 +132,11 @@ def oracle(c, out):
     mps = [x[1] for x in caps if x[0] == "mp"]
     if mps != [f[0] for f in k["fams"]]:
         return ("open-sent-mp", "multiprotocol capabilities do not list the configured families")
+    # ADD-PATH as announced: per family exactly what that family is configured with (1 receive, 2 send, 3 both; none: not listed)
+    want_ap = sorted([f, (1 if r else 0) | (2 if sm > 0 else 0)] for f, r, sm, g in k["fams"] if r or sm > 0)
+    got_ap = sorted([list(t) for x in caps if x[0] == "ap" for t in x[1:]])
+    if got_ap != want_ap:
+        return ("open-sent-addpath", "the OPEN announces ADD-PATH (family, mode) %s; the configuration asks for %s" % (got_ap, want_ap))
     # remote AS as announced
     ras = o["asf"]
     for cp in o["caps"]:
